@@ -134,6 +134,7 @@ enum {
   X(void, jv_g2a_canon, (uint8_t* out193, const void* in)) \
   X(int, jv_g1a_status, (const void* in)) /* bit0 infinity, bit1 on curve, bit2 killed by r (reference path) */ \
   X(int, jv_g2a_status, (const void* in)) \
+  X(int, jv_fq_legendre, (const uint8_t* le48)) \
   X(int, jv_g1a_from_x, (void* outA, const uint8_t* x48_le_raw, int greater)) /* x: canonical integer, little-endian; returns 0 if no y */ \
   X(int, jv_g2a_from_x, (void* outA, const uint8_t* x96_le_raw, int greater)) /* c0 (48 LE) then c1 (48 LE) */ \
   X(void, jv_g1a_xy, (uint8_t* out96, const void* inA)) /* canonical integers, big-endian x then y */ \
@@ -240,6 +241,7 @@ enum {
   X(int, jv_wk_unmarshal, (int view, int ok, void* obj, const void* buf, int compressed, int checked)) \
   X(size_t, jv_wk_native_list_bytes, (int view, size_t n)) \
   X(void, jv_wk_native_list_build, (int view, void* mem, const jv_attrs* in)) \
+  X(void, jv_wk_native_list_alias, (int view, void* hdr, const void* other_native, size_t n)) \
   X(int, jv_wk_set_length, (int view, int ok, void* obj, const void* buf, size_t len, int compressed)) \
   X(size_t, jv_wk_get_marshalled_length, (int view, int ok, const void* obj, int compressed)) \
   X(int, jv_wk_unmarshalled_length, (int view, int ok, const void* buf, size_t len, int compressed)) \
